@@ -21,6 +21,7 @@ import (
 	"fmt"
 	"io"
 	"net/http"
+	"net/url"
 	"strings"
 
 	ocispec "github.com/opencontainers/image-spec/specs-go/v1"
@@ -56,6 +57,38 @@ func parseLink(resp *http.Response) (string, error) {
 		return "", err
 	}
 	return linkURL.String(), nil
+}
+
+// setQueryParams sets the given key/value pairs in rawQuery like
+// url.Values.Set, keeping every other parameter exactly as it is written.
+// The query of a next link is opaque to the client: re-encoding it through
+// url.Values would silently drop the parameters url.ParseQuery rejects
+// (e.g. those containing ';' or a malformed escape).
+func setQueryParams(rawQuery string, kv ...string) string {
+	var params []string
+	for _, param := range strings.Split(rawQuery, "&") {
+		if param == "" {
+			continue
+		}
+		key, _, _ := strings.Cut(param, "=")
+		if unescaped, err := url.QueryUnescape(key); err == nil {
+			key = unescaped
+		}
+		replaced := false
+		for i := 0; i+1 < len(kv); i += 2 {
+			if key == kv[i] {
+				replaced = true
+				break
+			}
+		}
+		if !replaced {
+			params = append(params, param)
+		}
+	}
+	for i := 0; i+1 < len(kv); i += 2 {
+		params = append(params, url.QueryEscape(kv[i])+"="+url.QueryEscape(kv[i+1]))
+	}
+	return strings.Join(params, "&")
 }
 
 // limitReader returns a Reader that reads from r but stops with EOF after n
